@@ -1075,6 +1075,56 @@ def q14(rep, tier):
     rep.floor("folder copies of builtins compared with another evaluator", n, 100)
 
 
+def q15(rep):
+    """peepAdditiveOp turns `a + (-b)` into `a - b` and back, using peepPositive(x): "x is a negative literal or a negation; here is
+    its positive counterpart".  For the literal cases the returned node must really be positive, otherwise the two rewrites
+    undo each other for ever: the most negative machine integer has no positive counterpart (-LONG_MIN overflows to LONG_MIN), so
+    `x + (-9223372036854775807 - 1)` makes the compiler loop at every setting that runs the peephole, while -Q0 compiles it.
+    In peepPositive every `foamNewSInt(-d)` is under a test that excludes the minimum of d's type besides `d < 0`."""
+    f = common.extract("of_peep.c", trees=["peepPositive"])
+    fn = f.func("peepPositive")
+    par = common.parents(fn["body"])
+    n = 0
+    for x in walk(fn["body"]):
+        if x["k"] != "UnaryOperator" or x["op"] != "-":
+            continue
+        d = strip(x["c"][0])
+        if d is None or d["k"] != "MemberExpr" or d["n"] not in ("SIntData", "HIntData"):
+            continue
+        n += 1
+        dtxt = render(d)
+        conds = []
+        cur = x
+        while cur["id"] in par:
+            p_ = par[cur["id"]]
+            if p_["k"] == "IfStmt" and any(y is cur for y in walk(p_["c"][1])):
+                conds.append(p_["c"][0])
+            cur = p_
+        excl = False
+        for c in conds:
+            for y in walk(c):
+                if y["k"] != "BinaryOperator":
+                    continue
+                txt = render(y)
+                if dtxt not in txt:
+                    continue
+                # d + MAX >= 0, d > MIN, d != MIN, -d > 0 ...
+                if y["op"] in (">=", ">") and any(z["k"] == "BinaryOperator" and z["op"] == "+" for z in walk(y["c"][0])) and const_value(y["c"][1]) == 0:
+                    excl = True
+                k = const_value(y["c"][1])
+                if y["op"] in (">", "!=", ">=") and k is not None and k <= -(1 << 14):
+                    excl = True
+        key = "positive-counterpart-exists:%s" % d["n"]
+        if excl:
+            rep.ok("Q15", key)
+        else:
+            rep.violation("Q15", key, "of_peep.c:%d (peepPositive)" % x["l"],
+                          "`-%s` is offered as the positive counterpart of any negative literal: for the most negative value the "
+                          "negation overflows and is negative again, so peepAdditiveOp rewrites x + c into x - c and back without "
+                          "end -- the compiler does not terminate at the settings that run the peephole" % dtxt)
+    rep.floor("negated literals in peepPositive", n, 1)
+
+
 def run(tier, only=None):
     rep = common.Report("C02", tier, EXPLANATION)
     f_foam = common.extract("foam.c", trees=["foamHasSideEffect", "foamIsControlFlow"])
@@ -1093,6 +1143,7 @@ def run(tier, only=None):
     q12(rep)
     q13(rep)
     q14(rep, tier)
+    q15(rep)
     from . import selfcompare
     selfcompare.report(rep, "Q9", [u for u in common.compiler_units() if u.startswith("of_") or u in ("usedef.c", "flog.c", "dflow.c", "optfoam.c", "inlutil.c", "loops.c", "foam.c")], what="(optimizer)")
     from . import variadic
